@@ -64,6 +64,21 @@ CLAIMED = {
             "For every transfer performed by the VM (C10's call trees: zero-value, self-transfers, new and code-less recipients, create endowments, frames that later revert, injected join-point failures) the expected entries per (account, shadow call index) are rebuilt from the observed balances and compared as integers with the complete dump and Balance(); entries without an observed transfer are reported.",
             "core.Transfer / StateDB balances are ground truth; call index from the shadow attempt log.",
             "DESIGN.md §3 C13"),
+    "C05": ("fault_enumeration",
+            "online/offline trace-specification checker: parenthesis automaton over provider firings, Aspect enter/exit, Enter/Exit and Step events with fault injection at every firing position; payloads read from the protobuf request given to real WASM Aspects",
+            "Generated call trees run unbound / disabled / with 0-3 real Aspects per join point / with a provider failure injected at every firing position x error kinds / with trapping and gas-exhausting Aspects / with the enable flag toggled between calls and from inside a re-entrant provider callback. Every CALL frame whose target has code gets exactly one pre firing before its first instruction and one post firing after its last and after all nested calls; nothing fires elsewhere or after a failed pre; each Aspect's request carries that call's caller, callee, calldata, value, gas, call-tree index and (post) the callee's own return data and error.",
+            "Payload checks need an Aspect bound; call index from the shadow attempt log; code size and enable flag read at frame entry.",
+            "DESIGN.md §3 C05"),
+    "C06": ("fault_enumeration",
+            "conservation checker over Step/Enter/Exit/AspectEnter/AspectExit events with real gas-metered WASM Aspects and injected join-point failures",
+            "Per frame: Aspect i is given what Aspect i-1 left; callee's first instruction sees entry gas minus pre burns; gas handed back (derived from the caller's next instruction) equals callee end gas minus post burns; no frame hands back more than given; an out-of-gas join point surfaces as the identical vm.ErrOutOfGas with nothing handed back; other non-revert post failures hand back nothing.",
+            "Burn = gas reported at AspectEnter minus gas in the result at AspectExit; callee end gas rebuilt for frames ending in STOP/RETURN/REVERT.",
+            "DESIGN.md §3 C06"),
+    "C12": ("exploration",
+            "pairwise differential on the fork itself (journal instruction + padding vs pops of equal length) with aligned-step comparison and fee accounting; malformed-operand halts checked per fork",
+            "For generated call trees containing all eight journal opcodes with well-formed operands in static and non-static frames on Frontier..Cancun: result, logs, post-state and every aligned step (pc, op, depth, full stack, memory, return data) equal the pops program's; each journal step costs one non-zero constant (cross-case: one value over all forks); leftover difference equals the predicted sum. Malformed operand sets halt the frame with all gas gone, effects reverted, caller sees 0.",
+            "Programs are gas/code-insensitive by construction; well-formedness per the C09/C11 models.",
+            "DESIGN.md §3 C12"),
 }
 
 # Properties not (yet) claimed. Reason must be current.
